@@ -142,6 +142,19 @@ func init() {
 			in.ts.noPromote = true
 			return nil
 		},
+		"zzvHintInt": func(in *Interp, a []Value) Value {
+			// candidate for the proven decode(encode(x)) simplification (sound: only used after a proof)
+			if t := a[0].(*Term); !t.IsConst() {
+				in.encoded["varint"] = append(in.encoded["varint"], t)
+			}
+			return nil
+		},
+		"zzvHintUint": func(in *Interp, a []Value) Value {
+			if t := a[0].(*Term); !t.IsConst() {
+				in.encoded["uvarint"] = append(in.encoded["uvarint"], t)
+			}
+			return nil
+		},
 		"zzvBound": func(in *Interp, a []Value) Value {
 			in.p.run.mu.Lock()
 			in.p.run.Bounds[str(a[0])] = str(a[1])
